@@ -113,7 +113,8 @@ def step_rules(fx, rep, from_affine):
                     args.append(('byref', Agg([qx, qy, Int(0, 1)])))
                 else:
                     args.append(('byref', v) if fx.body(p).local_ty(len(args) + 1).startswith('&') else v)
-            I = exp.Interp(fx, 'none', extra_transfer=G.transfer, max_paths=16, inline=lambda q_: INL.is_private_helper(fx, q_) and not q_.startswith(from_affine + '::'))
+            I = exp.Interp(fx, 'none', extra_transfer=G.transfer, max_paths=16, inline=lambda q_: INL.is_private_helper(fx, q_) and q_ not in calls)
+            I.fork_inlined = True
             try:
                 res = I.run(p, args)
             except (exp.NotDerivable, exp.Budget) as e:
